@@ -173,11 +173,11 @@ pub fn property() -> Property {
             Section {
                 name: "long-loops",
                 plan: |t| match t {
-                    Tier::Quick => Plan::Random { cases: 6_000, max_len: 400 },
+                    Tier::Quick => Plan::Random { cases: 14_000, max_len: 400 },
                     Tier::Thorough => Plan::Random { cases: 300_000, max_len: 500 },
                 },
                 case: case_long_loops,
-                min_classes: &[("while-ran-100-times", 300), ("while-ran-100-times-inside-a-loop-iteration", 60)],
+                min_classes: &[("while-ran-100-times", 300), ("while-ran-100-times-inside-a-loop-iteration", 50)],
             },
         ],
         probes: vec![],
